@@ -137,7 +137,8 @@ ALPH = {
     "shared_timed_mutex": "LTltFGfgZzUu",
 }
 QUICK2 = {"timed_mutex": "LTFG", "recursive_timed_mutex": "LTG", "shared_timed_mutex": "LlG"}
-SMALL = {"timed_mutex": "LTFG", "recursive_timed_mutex": "LTG", "shared_timed_mutex": "LTltGg"}
+SMALL = {"mutex": "LT", "timed_mutex": "LGF", "recursive_mutex": "LT", "recursive_timed_mutex": "LG", "shared_mutex": "LlT",
+         "shared_timed_mutex": "LlG"}
 MACHINE = {"mutex": "Mx", "timed_mutex": "Mx", "cv": "Mx", "recursive_mutex": "Rc", "recursive_timed_mutex": "Rc",
            "shared_mutex": "Sh", "shared_timed_mutex": "Sh"}
 
@@ -164,11 +165,13 @@ def tuples(cls, alph, sizes):
 
 
 def cv_ok(ps):
-    """a condition-variable scenario is a correct client program iff every waiter is eventually released:
-    some fiber does A (flag + notify_all) or there are at least as many N (flag + notify_one) as waiters"""
+    """a condition-variable scenario is a correct client program iff every waiter is eventually released: count
+    only the setters (N: flag + notify_one, A: flag + notify_all) that are not themselves stuck behind an untimed
+    wait of their own fiber; some such A, or at least as many such N as there are waiters"""
+    free = "".join(p.split("W")[0] for p in ps)
     s = "".join(ps)
     waiters = sum(s.count(c) for c in "Wwxu")
-    return waiters == 0 or "A" in s or s.count("N") >= waiters
+    return waiters == 0 or "A" in free or free.count("N") >= waiters
 
 
 def cv_scenarios(k, maxlen, alph="WwxuNAnaS"):
@@ -215,7 +218,7 @@ def scenario_sets(tier, seed):
     ex += cv_scenarios(2, 1)
     ex += ["cv/%s|%s" % (a, b) for a in progs("WuNAn", 2, False) if len(a) == 2 for b in "WwuxNAn"
            if cv_ok((a, b)) and any(c in a + b for c in "Wwxu") and any(c in a + b for c in "NAn")]
-    ex += ["cv/W|n|N"]
+    ex += ["cv/W|n|N", "cv/W|W|A"]
     ex += ["tls/0pYp|1pYp4q", "tls/pY0Yp|qY5Yq|p1p", "tls/04pq|15pq|pq"]
     ex += ["thread/J(S)J()YD(Y)S", "thread/D(S)D(Y)Y", "thread/J(J(Y)D(S))Y", "thread/D(J(S))J(Y)S", "thread/D(Y)D(Y)J(Y)"]
     ex += ["mutex/LS|L", "timed_mutex/L(S)|F|G", "cv/WS|SN"]
@@ -227,16 +230,20 @@ def scenario_sets(tier, seed):
         for cls, alph in ALPH.items():
             small = SMALL.get(cls, alph)
             ex2 += [n for n in tuples(cls, small, (2, 2)) if n not in have]
-            ex2 += tuples(cls, small[:4], (1, 1, 1))
-            ex2 += [n for n in lock_pairs(cls, progs(alph, 2, cls.startswith("recursive")), progs(alph, 1, False)) if n not in have]
-        ex2 += [n for n in cv_scenarios(2, 2, "WuxNAn") if n not in have]
-        ex2 += ["cv/W|W|A", "cv/u|u|A", "cv/W|u|A"]
+            ex2 += tuples(cls, small[:3], (1, 1, 1))
+            wide = "LTltGg" if cls == "shared_timed_mutex" else alph
+            ex2 += [n for n in lock_pairs(cls, progs(alph, 1, False) + progs(wide, 2, cls.startswith("recursive")),
+                                          progs(alph, 1, False)) if n not in have]
+        ex2 += [n for n in ["cv/%s|%s" % (a, b) for a in progs("WwxuNAna", 2, False) if len(a) == 2 for b in "WwuxNAna"
+                            if cv_ok((a, b)) and any(c in a + b for c in "Wwxu") and any(c in a + b for c in "NAna")]
+                if n not in have]
+        ex2 += ["cv/u|u|A", "cv/W|x|A"]
         ex2 = sorted(set(ex2))
         sets.append(("exhaustive: 2 fibers x (<=2,<=2) blocks and 3 fibers x 1 block over the main operations, more condvar "
                      "programs", "dfs", ["--max", str(DFS_CAP)], ex2))
     # seeded random walks over larger configurations
     big = []
-    n_big = 40 if tier == "quick" else 300
+    n_big = 40 if tier == "quick" else 160
     for i in range(n_big):
         cls = rnd.choice(list(ALPH) + ["cv"])
         k = rnd.choice([3, 4])
@@ -251,7 +258,7 @@ def scenario_sets(tier, seed):
             big.append("%s/%s" % (cls, "|".join(rnd.choice(pl) for _ in range(k))))
     big = sorted(set(big))
     sets.append(("seeded random schedules, 3-4 fibers x <=2 blocks", "random",
-                 ["--max", "60" if tier == "quick" else "300", "--seed", str(seed)], big))
+                 ["--max", "60" if tier == "quick" else "200", "--seed", str(seed)], big))
     return sets
 
 
@@ -665,13 +672,26 @@ def main(ck):
     if variant is not None:
         write_gen(variant)
         ck.cov["source_variant"] = variant
-    # ---- proofs
-    ck.prove("props/Properties_C18.v", ["model/FiberSyncObs.vo", "gen/FiberSyncSource.vo"])
-    pa = dict(ck.cov.get("print_assumptions", {}))
-    ck.prove("props/Properties_C18_Source.v", [])
-    pb = ck.cov.get("print_assumptions", {})
-    ck.cov["print_assumptions"] = dict(closed=pa.get("closed", 0) + pb.get("closed", 0),
-                                       axioms=sorted(set(pa.get("axioms", []) + pb.get("axioms", []))))
+    # ---- proofs: the generic development, then the instantiation at the tree under test (one file per class, so
+    # that a missing fix breaks exactly the theorems about its class)
+    closed, axioms = 0, set()
+    files = ["props/Properties_C18.v"]
+    if variant is not None:
+        files += ["props/Properties_C18_Source%s.v" % m for m in ("Mx", "Rc", "Sh", "Sl")]
+    for i, f in enumerate(files):
+        ck.prove(f, ["model/FiberSyncObs.vo", "gen/FiberSyncSource.vo"] if i == 0 else [])
+        pa = ck.cov.get("print_assumptions", {})
+        closed += pa.get("closed", 0)
+        axioms |= set(pa.get("axioms", []))
+    ck.cov["print_assumptions"] = dict(closed=closed, axioms=sorted(axioms))
+    ck.cov["checker_cmd"] = ("cd /verif/coq && make -k -j16 props/Properties_C18.vo props/Properties_C18_Source{Mx,Rc,Sh,Sl}.vo"
+                             "  (coqc 8.16.1 kernel; every property theorem followed by Print Assumptions; "
+                             "gen/FiberSyncSource.v regenerated from the tree under test first)")
+    if variant is not None and not all(variant.values()):
+        missing = [k for k in FLAGS if not variant[k]]
+        for b_ in ck.broken:
+            if "Properties_C18_Source" in b_["name"] or "source_" in b_["name"]:
+                b_["detail"] = ("the tree under test still has the pinned text at: %s\n" % ", ".join(missing)) + b_["detail"]
     # ---- implementation + correspondence
     exe, b = vlib.compile_harness("F", [HARNESS], "c18")
     tot = dict(evaluations=0, scenarios=0, n_traces=0, n_valid=0, n_nontrivial=0, replays=0, failing=0)
